@@ -213,14 +213,24 @@ def mon_cancel_target(sc):
 
 
 def mon_faults(sc):
-    """C10: the instrumented channel saw overlapping Send/Recv/Close, a Send outside the lock, a second Close,
-    or a record that is not a JSON-RPC message."""
+    """C10 (and the send mechanism every server property relies on): the instrumented channel saw overlapping
+    Send/Recv/Close, a second Close, or a record that is not a JSON-RPC message.  These are observed facts."""
     for l in sc["lines"]:
         f = l.split("\t")
-        if f[0] == "fault":
+        if f[0] == "fault" and "without holding the owner's mutex" not in l:
             return " ".join(f[1:])
         if f[0] == "o" and f[1] == "sendbad":
             return "record passed to Send is not a complete JSON-RPC message: " + f[3]
+    return None
+
+
+def lock_probe(sc):
+    """Send/Close entered while the owner's mutex was free (TryLock probe).  Not by itself a violation of a
+    property (another lock might serialise the senders): it breaks the correspondence with the model, whose
+    sends are part of critical-section labels; the racing-mode scenarios then look for a real overlap."""
+    for l in sc["lines"]:
+        if l.startswith("fault\t") and "without holding the owner's mutex" in l:
+            return l.split("\t", 1)[1]
     return None
 
 
@@ -258,12 +268,12 @@ def mon_push(sc):
 
 
 MONITORS = {
-    "c01": [mon_start_once, mon_response_once],
-    "c03": [mon_barrier],
-    "c06": [mon_concurrency],
-    "c07": [mon_cancel_target],
-    "c08": [mon_wait_status],
-    "c09": [mon_push],
+    "c01": [mon_start_once, mon_response_once, mon_faults],
+    "c03": [mon_barrier, mon_faults],
+    "c06": [mon_concurrency, mon_faults],
+    "c07": [mon_cancel_target, mon_faults],
+    "c08": [mon_wait_status, mon_faults],
+    "c09": [mon_push, mon_faults],
     "c10": [mon_faults],
 }
 
@@ -369,6 +379,9 @@ def judge_logs(ctx, res, fam, logs, crashes):
                     mon_fail = (m.__name__, r)
                     break
             rej = next((v for v in vs if v[0] == "REJECT"), None)
+            lp = lock_probe(sc)
+            if lp and not mon_fail and not rej:
+                rej = ("REJECT", "the model performs every Send/Close inside a critical section of the server mutex; observed: " + lp)
             if mon_fail:
                 res.violation("%s:monitor:%s" % (fam, mon_fail[0]), mon_fail[1],
                               dict(kind="failing-history", family=fam, seed=ctx["seed"], idx=sc["idx"],
